@@ -36,6 +36,9 @@ func acquireDecoder() *Decoder {
 		dec.useSkipProba = false
 		dec.skipP = 0
 		dec.filterType = 0
+		// Left intra-mode context: only initScanline (end of a completed row)
+		// restores it, so a decode that failed mid-row leaves it dirty.
+		dec.intraL = [4]uint8{}
 		dec.AlphaData = nil
 		return dec
 	}
